@@ -38,6 +38,15 @@ CHECKS = {
  "C12": (MC, "TLC: GenGraph generator + CallGraph.tla predicates (work-list reachability) over the published tree / in-use set / emitted JSRs", "6.C12",
          "GenGraph.tla enumerates acyclic call graphs over main,f1,f2,f3 with every call in a syntactic position (statement, condition, argument, loop body, return, ternary, switch case) and attributes (inline subsets, interrupt handler, unused function, prototypes first); CallGraph.tla checks: every source call is in the tree, every emitted JSR is reachable through it, in-use = Reach(tree, main + interrupts) exactly and covers the source-reachable set.",
          "Trusted: driver's rendering of call sites; one site per (caller, callee)."),
+ "C14": (TV, "TLC sequential-product refinement: non-inline code vs code with subsets of the callees declared inline (Refine pair mode)", "6.C14",
+         "Programs with calls (arguments, results inside larger expressions, nested calls; callee bodies with loops, early returns, switch, locals, further calls) are compiled with no function inline and with subsets of the called functions inline; Refine.tla runs both from the same inputs and requires equal final variables, X, Y, faults and termination.",
+         "Trusted: TLC, M6502, harness linker (inline bodies are expanded by the compiler; templates are not linked)."),
+ "C15": (TV, "TLC sequential-product refinement of program pairs generated by the nine rewrite rules (GenProg RW family)", "6.C15",
+         "GenProg.tla's RW family enumerates pairs related by: commuting + & | ^, x op= e vs x = x op e, ++x/x++ vs x += 1, if(c) A else B vs if(!c) B else A, a<b vs b>a, for vs while, switch vs if-chain, register index vs constant index, call vs body in place; both forms are compiled and executed by TLC on M6502 from the same inputs; final states must be equal. A refused form leaves the pair undecided.",
+         "Trusted: TLC, M6502. Differences explained by a shape C01 lists as miscompiled are attributed to that finding."),
+ "C17": (TV, "TLC refinement with split-port memory classes in M6502 (faults on wrong-port access / RMW) + CSem final state", "6.C17",
+         "GenProg programs compiled with feature atari2600 and subsets of the variables declared superchip, or bank-resident RAM under 3E / 3E+; M6502's memory model raises a fault for a read through a write port, a write through a read port and any read-modify-write on either; the final state must equal what CSem prescribes; a control group of ordinary placements is included.",
+         "Trusted: split-port address windows as laid out by the harness (superchip: write $1000, read +$80; 3E: read $1000, write +$400; 3E+: write +$200)."),
  "C16": (EX, "systematic token-level mutation of the repository's own test inputs; every recorded outcome validated by TLC against Outcome.tla", "6.C16",
          "About 24 000 (quick) near-valid programs: each C source the repository's tests compile (read from src/lib.rs at run time) and eight own programs, mutated at token level (delete, duplicate, swap, replace/insert from a 130-entry menu of keywords, operators, malformed and out-of-range literals, quotes, directives, self-referential macros, deep nesting), under five option sets, each compiled in a child process with a deadline; TLC accepts an outcome iff it is a result or a located/structured error. Exploration, not a proof of totality.",
          "8 MB stack, 2.5 s deadline. Crash findings are identified by source file and panic message."),
